@@ -6,7 +6,7 @@ from pathlib import Path
 from common import (Model, ModelError, VERIF, EVIDENCE_DIR, REPLAY_DIR, CORPUS_DIR, KNOWN_FINDINGS,
                     derive_seed, CaseTimeout, with_timeout)
 
-CASE_TIMEOUT_S = 20.0
+CASE_TIMEOUT_S = 20.0     # SIGALRM limit per case (retried once with a five-fold limit)
 
 
 class Finding:
@@ -55,7 +55,7 @@ def _run_case(sl, case, model, timeout=CASE_TIMEOUT_S):
     except CaseTimeout:
         model.close()
         try:   # one retry with a ten-fold limit before calling it a hang
-            return with_timeout(timeout * 10, sl.run, case, model)
+            return with_timeout(timeout * 5, sl.run, case, model)
         except CaseTimeout:
             model.close()
             return ([("disagreement", "case timed out twice (implementation or model hangs)")], ["timeout"])
@@ -63,14 +63,17 @@ def _run_case(sl, case, model, timeout=CASE_TIMEOUT_S):
         return ([("disagreement", "model error: " + str(e)[:500])], ["model-error"])
 
 
-def _worker(args):
-    sl, seed, indices, tier, explicit_cases = args
+HANG_LIMIT_S = 150.0          # a worker that makes no progress for this long is killed (C-level hangs ignore SIGALRM)
+
+
+def _worker_proc(sl, seed, items, tier, explicit, q, progress):
+    """runs items, streaming one compact record per case through the queue"""
     model = Model()
-    res = {"evals": 0, "keys": set(), "nontrivial_keys": set(), "classes": {}, "findings": [], "samples": []}
     try:
-        it = explicit_cases if explicit_cases is not None else indices
-        for item in it:
-            if explicit_cases is not None:
+        for pos, item in enumerate(items):
+            progress[0] = pos
+            progress[1] = time.time()
+            if explicit:
                 case = item
             else:
                 rng = random.Random(derive_seed(seed, sl.name, item))
@@ -81,49 +84,140 @@ def _worker(args):
                 findings, classes = _run_case(sl, case, model)
             except Exception as e:   # harness bug: surface loudly, never hide
                 findings, classes = [("disagreement", "harness exception: " + "".join(
-                    traceback.format_exception(type(e), e, e.__traceback__))[-1500:])], ["harness-exception"]
-            res["evals"] += 1
-            k = _case_key(case)
-            res["keys"].add(k)
+                    traceback.format_exception(type(e).__name__ and type(e), e, e.__traceback__))[-1500:])], ["harness-exception"]
             classes = list(classes)
-            if sl.nontrivial(classes):
-                res["nontrivial_keys"].add(k)
-            for c in classes:
-                res["classes"][c] = res["classes"].get(c, 0) + 1
-            if len(res["samples"]) < 2:
-                res["samples"].append(case)
-            for kind, detail in findings:
-                if len(res["findings"]) < 5:
-                    res["findings"].append((kind, case, detail))
+            q.put(("case", _case_key(case), bool(sl.nontrivial(classes)), classes,
+                   [(k, case, d) for k, d in findings][:3], case if pos < 2 else None))
+        q.put(("done",))
     finally:
         model.close()
+
+
+def _worker(args):
+    """in-process variant (procs == 1): same record stream, collected directly"""
+    sl, seed, indices, tier, explicit_cases = args
+    import queue as _q
+    q = _q.Queue()
+    items = explicit_cases if explicit_cases is not None else indices
+    _worker_proc(sl, seed, items, tier, explicit_cases is not None, q, [0, time.time()])
+    res = _empty_res()
+    while not q.empty():
+        _absorb(res, q.get())
     return res
 
 
+def _empty_res():
+    return {"evals": 0, "keys": set(), "nontrivial_keys": set(), "classes": {}, "findings": [], "samples": []}
+
+
+def _absorb(res, rec):
+    if rec[0] != "case":
+        return
+    _, key, nontriv, classes, findings, sample = rec
+    res["evals"] += 1
+    res["keys"].add(key)
+    if nontriv:
+        res["nontrivial_keys"].add(key)
+    for c in classes:
+        res["classes"][c] = res["classes"].get(c, 0) + 1
+    if sample is not None and len(res["samples"]) < 2:
+        res["samples"].append(sample)
+    for f in findings:
+        if len(res["findings"]) < 40:
+            res["findings"].append(f)
+
+
 def run_slice(sl: Slice, seed: int, n: int, tier: str, procs: int, cases=None):
-    """run n generated cases (or the explicit list [cases]) of a slice on [procs] processes"""
-    if cases is not None:
+    """run n generated cases (or the explicit list [cases]) of a slice on [procs] watched processes"""
+    explicit = cases is not None
+    if explicit:
         chunks = [cases[i::procs] for i in range(procs)]
-        jobs = [(sl, seed, None, tier, ch) for ch in chunks if ch]
     else:
         chunks = [list(range(i, n, procs)) for i in range(procs)]
-        jobs = [(sl, seed, ch, tier, None) for ch in chunks if ch]
-    if not jobs:
-        return {"evals": 0, "keys": set(), "nontrivial_keys": set(), "classes": {}, "findings": [], "samples": []}
-    if procs == 1 or len(jobs) == 1:
-        parts = [_worker(j) for j in jobs]
-    else:
-        with mp.get_context("fork").Pool(len(jobs)) as pool:
-            parts = pool.map(_worker, jobs)
-    tot = {"evals": 0, "keys": set(), "nontrivial_keys": set(), "classes": {}, "findings": [], "samples": []}
-    for p in parts:
-        tot["evals"] += p["evals"]
-        tot["keys"] |= p["keys"]
-        tot["nontrivial_keys"] |= p["nontrivial_keys"]
-        for c, v in p["classes"].items():
-            tot["classes"][c] = tot["classes"].get(c, 0) + v
-        tot["findings"].extend(p["findings"])
-        tot["samples"].extend(p["samples"][:1])
+    chunks = [c for c in chunks if c]
+    tot = _empty_res()
+    if not chunks:
+        return tot
+    if procs == 1:
+        for ch in chunks:
+            part = _worker((sl, seed, None if explicit else ch, tier, ch if explicit else None))
+            for k in ("evals",):
+                tot[k] += part[k]
+            tot["keys"] |= part["keys"]; tot["nontrivial_keys"] |= part["nontrivial_keys"]
+            for c, v in part["classes"].items():
+                tot["classes"][c] = tot["classes"].get(c, 0) + v
+            tot["findings"].extend(part["findings"]); tot["samples"].extend(part["samples"][:1])
+        return tot
+    ctx = mp.get_context("fork")
+    q = ctx.Queue()
+    workers = []          # [process, progress array, items]
+
+    def spawn(items):
+        prog = ctx.Array("d", [0.0, time.time()], lock=False)
+        p = ctx.Process(target=_worker_proc, args=(sl, seed, items, tier, explicit, q, prog), daemon=True)
+        p.start()
+        workers.append([p, prog, items])
+
+    for ch in chunks:
+        spawn(ch)
+    done = 0
+    total = len(chunks)
+    import queue as _queue
+    while done < total:
+        try:
+            rec = q.get(timeout=1.0)
+            if rec[0] == "done":
+                done += 1
+            else:
+                _absorb(tot, rec)
+            continue
+        except _queue.Empty:
+            pass
+        now = time.time()
+        for w in list(workers):
+            p, prog, items = w
+            if not p.is_alive():
+                if p.exitcode not in (0, None):
+                    # crashed (segfault / killed): blame the case in progress, continue with the rest
+                    pos = int(prog[0])
+                    workers.remove(w)
+                    bad = items[pos] if pos < len(items) else None
+                    case = bad if explicit else {"generated_index": bad}
+                    tot["findings"].append(("violation" if getattr(sl, "hang_is_violation", False) else "disagreement", case,
+                                            f"worker process died (exit {p.exitcode}) while running this case"))
+                    rest = items[pos + 1:]
+                    if rest:
+                        spawn(rest)
+                    else:
+                        done += 1
+                continue
+            if now - prog[1] > HANG_LIMIT_S:
+                pos = int(prog[0])
+                p.terminate()
+                p.join(5)
+                if p.is_alive():
+                    p.kill()
+                workers.remove(w)
+                bad = items[pos] if pos < len(items) else None
+                if explicit:
+                    case = bad
+                else:
+                    rng = random.Random(derive_seed(seed, sl.name, bad))
+                    try:
+                        case = sl.gen(rng, bad, tier)
+                    except Exception:
+                        case = {"generated_index": bad}
+                tot["evals"] += 1
+                tot["classes"]["hang"] = tot["classes"].get("hang", 0) + 1
+                tot["findings"].append(("violation" if getattr(sl, "hang_is_violation", False) else "disagreement", case,
+                                        f"case did not terminate within {HANG_LIMIT_S:.0f} s and could not be interrupted (killed by the watchdog)"))
+                rest = items[pos + 1:]
+                if rest:
+                    spawn(rest)
+                else:
+                    done += 1
+    for p, _, _ in workers:
+        p.join(2)
     return tot
 
 
